@@ -191,15 +191,18 @@ def jvp_routing(which, w0, w1, c0, n0, x0, x1, k, tw0, tw1, tc0, tx0, tx1, tk):
 
 
 @with_real_dicts
-def custom_vjp_rule(w0, w1, x0, x1, ct, nondiff):
+def custom_vjp_rule(w0, w1, x0, x1, ct, nondiff, n0=0):
   """lift.custom_vjp: the forward value is that of the original function; when it is
   differentiated the user's backward rule is used (a deliberately different one),
   for the selected variables and for the inputs"""
-  vs = {'params': {'w': Arr([w0, w1], (2,))}}
+  vs = {'params': {'w': Arr([w0, w1], (2,))}, 'counter': {'n': Arr([n0], (1,))}}
   x = Arr([x0, x1], (2,))
 
   def f(scope, s, x):
     w = scope.variable('params', 'w', lambda: Arr([1, 1], (2,)))
+    n = scope.variable('counter', 'n', lambda: Arr([0], (1,)))
+    if scope.is_mutable_collection('counter'):
+      n.value = n.value + 1            # a forward-pass update outside grad_vars
     return (w.value * x).sum() * s
 
   def fwd(scope, s, x):
@@ -223,9 +226,17 @@ def custom_vjp_rule(w0, w1, x0, x1, ct, nondiff):
     y, bwd_fn = L.vjp(outer, scope, x, vjp_variables='params')
     return plain_value, y, bwd_fn(ct)
   with ADEnv():
-    pv, y, (vg, gx) = core.apply(run)(vs, x)
+    (pv, y, (vg, gx)), upd = core.apply(run, mutable=['counter'])(vs, x)
+    # forward only
+    pv1, upd1 = core.apply(outer, mutable=['counter'])(vs, x)
   want = (w0 * x0 + w1 * x1) * 2
-  if pv != want or y != want:
+  if pv != want or y != want or pv1 != want:
+    return False
+  # the forward pass's update of a collection outside grad_vars is published: once
+  # per executed forward pass (two in `run`, one in the forward-only call)
+  if set(upd) != {'counter'} or not Arr([n0 + 2], (1,)).same(upd['counter']['n']):
+    return False
+  if set(upd1) != {'counter'} or not Arr([n0 + 1], (1,)).same(upd1['counter']['n']):
     return False
   return _same(plain(vg), {'params': {'w': Arr([ct * 7, ct * 11], (2,))}}) and Arr(
       [ct * 5, ct * 3], (2,)).same(gx)
@@ -337,7 +348,7 @@ def obligations(tier):
          bounds='variable_tangents for params / params + empty stats / params + '
                 'stats'),
       Ob('custom_vjp_rule', custom_vjp_rule,
-         dict(w0=v, w1=v, x0=v, x1=v, ct=v, nondiff=B()), split=('nondiff',),
+         dict(w0=v, w1=v, x0=v, x1=v, ct=v, nondiff=B(), n0=v), split=('nondiff',),
          timeout=600, funcs=F, per_path_timeout=60.0),
       Ob('linen_wrappers', linen_wrappers,
          dict(mode=I(0, 2), fi=I(0, 3), w0=v, w1=v, c0=v, n0=v, x0=v, x1=v, k=v, ct=v,
